@@ -779,8 +779,10 @@ class Exec:
       return VConstDict({k.s: v for k, v in zip(keys, vals)})
     if all(isinstance(v, VStr) for v in vals):
       # {column: 'sum', ...}: an option mapping only ever handed to a library
-      return VOpaque(z3.Const(self.ctx.sym('optdict'), sort_named('OptDict')),
-                     'OptDict')
+      d = VOpaque(z3.Const(self.ctx.sym('optdict'), sort_named('OptDict')),
+                  'OptDict')
+      d.map_keys, d.map_vals = list(keys), list(vals)
+      return d
     return dict_from_items(self, keys, vals, node)
 
   def eval_Attribute(self, node, env):
@@ -823,6 +825,16 @@ class Exec:
 
   def obj_attr(self, obj, attr, node):
     cs = self.world.class_source(obj.cls)
+    cached_fn = getattr(self.ctx, 'cached_fn', None)
+    if cached_fn and not (cs is not None and attr in cs.methods
+                          and attr not in cs.properties):
+      self.ctx.cur_line = getattr(node, 'lineno', self.ctx.cur_line)
+      self.ctx.oblige(
+          z3.BoolVal(False),
+          'lru_cache purity: %s reads the attribute %s of a %s, which is not '
+          'part of its cache key (the cached result goes stale when that '
+          'state changes)' % (cached_fn, attr, obj.cls), 'purity',
+          ('C08', 'C05', 'C10'))
     if cs is not None:
       if attr in cs.properties:
         return self.call_repo(cs.module.name, '%s.%s' % (cs.name, attr), obj,
@@ -1355,6 +1367,13 @@ class Exec:
     env.vars.update(bound)
     saved = self.ctx.cur_func
     self.ctx.depth += 1
+    # functools.lru_cache: the result is keyed by the ARGUMENTS only (self by
+    # identity), so inlining the body is sound only if the body reads no
+    # object state - every field / property read inside it is an obligation
+    # that fails (obj_attr).
+    saved_cached = getattr(self.ctx, 'cached_fn', None)
+    if cs is not None and fdef.name in cs.cached and parent is None:
+      self.ctx.cached_fn = qualname
     try:
       self.exec_block(frontend.strip_docstring(fdef.body), env)
       return NONE
@@ -1363,6 +1382,7 @@ class Exec:
     finally:
       self.ctx.depth -= 1
       self.ctx.cur_func = saved
+      self.ctx.cached_fn = saved_cached
 
   def call_closure(self, fdef, cenv, qual, args, kwargs, node):
     modname = cenv.module.name
